@@ -10,7 +10,7 @@ NQ == INSTANCE NQuads
 \* the transcription of the W3C algorithm (toy hash): used here only to recognise the inputs on which the ALGORITHM leaves the result
 \* open (Rdfc10!OutcomeDocs: a tie at step 5.3 or 5.4.6 between alternatives that are no automorphic images) - the one class of inputs on which an
 \* implementation that follows RDFC-1.0 to the letter cannot be label-independent
-R == INSTANCE Rdfc10 WITH Seed <- 0, Multi <- FALSE
+R == INSTANCE Rdfc10 WITH Seed <- 0, Multi <- FALSE, Wide <- FALSE
 RConv(t) == IF t.k = "iri" THEN [k |-> "i", v |-> t.v]
             ELSE IF t.k = "bnode" THEN [k |-> "b", v |-> t.v]
             ELSE IF t.k = "lit" THEN [k |-> "l", lex |-> t.lex, dt |-> t.dt, lang |-> t.lang]
